@@ -377,7 +377,9 @@ def link(state, address: int) -> bytes:
 MAX_INCLUDE_DEPTH = 16
 
 
-@metacommand(size=0)
+# (No size is declared: were the file name not known yet, the statement would
+# be laid out as taking no space)
+@metacommand
 def include(state, included_file_path: str):
     include_path = devices.resolve_relative_path(included_file_path, state["filename"])
 
